@@ -356,6 +356,67 @@ def lines_of(ops, op_text, nth=0):
     return found[nth] if len(found) > nth else []
 
 
+def check_conc_trace(label, lines, grant, cycles, outs, clients, use=False):
+    """Well-formedness of the `conc` part of a trace + a summary of who received the out-events."""
+    import re
+    start = lines.index('arbiter ok') + 1 if 'arbiter ok' in lines else 0
+    done = [i for i, line in enumerate(lines) if line.startswith('conc done ')]
+    check(len(done) == 1, f'{label}: exactly one `conc done` line')
+    if len(done) != 1:
+        return
+    part = lines[start:done[0] + 1]
+    shapes = [r't (\w+) claim ret=-?\d+', r't (\w+) use', r't (\w+) release-begin', r't (\w+) release-end',
+              r't (\w+) exc .*', r'o \d+ begin', r'o \d+ end', r'o \d+ exc .*',
+              r'obs comp api\.\w+ args=[-\d,]* disp=1', r'obs env@(\w+) api\.\w+ args=[-\d,]* disp=1',
+              r'conc done claims=\d+ denied=\d+']
+    bad = [line for line in part if not any(re.fullmatch(shape, line) for shape in shapes)]
+    check(not bad, f'{label}: unexpected lines in the conc trace: {bad[:3]}')
+    check(not any(' exc ' in line for line in part), f'{label}: no exceptions in threads or closures')
+    granted = sum(1 for line in part if re.fullmatch(rf't \w+ claim ret={grant}', line))
+    claims = sum(1 for line in part if re.fullmatch(r't \w+ claim ret=-?\d+', line))
+    check(claims == cycles * len(clients), f'{label}: {claims} claim lines, expected {cycles * len(clients)}')
+    check(part[-1] == f'conc done claims={granted} denied={claims - granted}', f'{label}: totals {part[-1]!r}')
+    check([line for line in part if re.fullmatch(r'o \d+ begin', line)] == [f'o {k} begin' for k in range(outs)],
+          f'{label}: out-event closures begin in FIFO order')
+    check([line for line in part if re.fullmatch(r'o \d+ end', line)] == [f'o {k} end' for k in range(outs)],
+          f'{label}: out-event closures end in FIFO order')
+    for client in clients:
+        seq = [line.split(' ', 2)[2] for line in part if line.startswith(f't {client} ')]
+        cycle = (['use'] if use else []) + ['release-begin', 'release-end']
+        expected = []
+        for item in seq:
+            if item.startswith('claim ret='):
+                expected += [item] + (cycle if item == f'claim ret={grant}' else [])
+        check(seq == expected, f'{label}: per-thread order of client {client}')
+    # summary: out-events delivered per client, and whether the receiver held the claim according to the
+    # (coarser) client-side log, i.e. between its `claim ret=<grant>` and its `release-end` line
+    delivered, dropped, inside = {}, 0, 0
+    holding = set()
+    current_out_delivered = False
+    for line in part:
+        match = re.fullmatch(r't (\w+) claim ret=(-?\d+)', line)
+        if match and int(match.group(2)) == grant:
+            holding.add(match.group(1))
+        match = re.fullmatch(r't (\w+) release-end', line)
+        if match:
+            holding.discard(match.group(1))
+        if re.fullmatch(r'o \d+ begin', line):
+            current_out_delivered = False
+        match = re.fullmatch(r'obs env@(\w+) .*', line)
+        if match:
+            current_out_delivered = True
+            delivered[match.group(1)] = delivered.get(match.group(1), 0) + 1
+            inside += match.group(1) in holding
+        if re.fullmatch(r'o \d+ end', line) and not current_out_delivered:
+            dropped += 1
+    total = sum(delivered.values())
+    check(total + dropped == outs, f'{label}: every out-event is delivered to one client or dropped')
+    print(f'-- {label}: {part[-1]}; out-events delivered: '
+          + (', '.join(f'{k}={v}' for k, v in sorted(delivered.items())) or 'none')
+          + f'; dropped (no client selected): {dropped}; delivered while the receiver\'s log shows it '
+          f'holding the claim: {inside}/{total}')
+
+
 def tests(workroot):
     mc_cfg = MultiClientPortCfg(port_name='api', claim_event_name='Claim',
                                 claim_granting_reply_value=ns_ids_t('Ok'), release_event_name='Release')
@@ -445,6 +506,28 @@ def tests(workroot):
               and 'obs comp cord2.Connected args= disp=1' in lines, f'{label}: closures ran on the worker')
         check(lines[-2:] == ['obs env api.Tick args= disp=0', 'ret void args= posted=0 shell=0 pump=none'],
               f'{label}: tail of the trace')
+
+    # ---- 4b. concurrency experiment on the multi-client shell (-DVT_THREADED), g++ and clang++ TSan.
+    #          Result.Ok == 0 is the granting reply the shell was generated with, so the arbiter grants 0.
+    spec, files, _, _ = programs['c_create_multiclient']
+    script = ['world pump=0 runtime=0 extra=0 name=mc', 'client api alice', 'client api bob', 'bind', 'final 0',
+              'arbiter api Claim Release 0 1', 'conc cycles=20 outs=30 seed=1 clients=alice,bob',
+              'call api@alice Check 1', 'pump']
+    for label, kwargs in (('c_threaded', {}), ('c_threaded_tsan', {'sanitize': 'tsan'})):
+        binary = build(label, spec, files, workroot, extra_flags=['-DVT_THREADED'], **kwargs)
+        if binary is None:
+            continue
+        started = time.time()
+        rc, lines, err = gen_cxx.run_script(binary, script, timeout=120)
+        elapsed = time.time() - started
+        check(rc == 0, f'{label}: exit status {rc}')
+        check('ThreadSanitizer' not in err and err.strip() == '', f'{label}: stderr not clean')
+        if err.strip():
+            print(err)
+        check_conc_trace(label, lines, grant=0, cycles=20, outs=30, clients=['alice', 'bob'])
+        check(lines[-3:] == ['obs comp api.Check args=1 disp=1', 'ret 0 args=1 posted=0 shell=1 pump=other',
+                             'pump executed=0'], f'{label}: call and pump still usable after conc')
+        print(f'   ({len(lines)} trace lines, run took {elapsed:.3f} s)')
 
     # ---- 5. expected build failures are reported, not raised
     spec, files = small_model(None)
